@@ -202,6 +202,7 @@ static void apply(djinterop::database& db, forest& f, std::vector<djinterop::cra
                 break;
         }
     }
+    verif_hook("raw-tables");      // C11: independent reader of the stored tables (symbolic runs), before the API-level comparison
     check_all(db, f, h);
 }
 static void run_crates(djinterop::database& db)
